@@ -475,12 +475,18 @@ class C11(common.Prop):
                 c, p_ = rng.choice(fl)
                 args = {"op": "index", "comp": c, "point": p_}
             yield {"be": rng.choice(BACKENDS), "pose": pd, "pre": [pre], "args": args, "kind": "generic-2step"}
-        for i in range(10 if quick else 300):
+        for i in range(16 if quick else 300):
             case = self.gen_shaped(rng, "openpose")
             if case["be"] == "np" and case["kind"].endswith("/full"):
-                case["pre"] = [{"op": "hide_remove"}]
-                case["args"] = rng.choice([{"op": "hide"}, {"op": "wrists"}, {"op": "index", "comp": "pose_keypoints_2d", "point": "LWrist"},
-                                           {"op": "get", "sel": ["pose_keypoints_2d"], "points": {"pose_keypoints_2d": ["RWrist", "Nose", "LEye"]}, "mal": "none"}])
+                if i % 3 == 2:
+                    # legs hidden in place first (zero confidence, mask cleared: the helper's own convention), then a helper that
+                    # works on a copy: it must change the points it names and nothing else - not the hidden points' missing flags
+                    case["pre"] = [{"op": "hide"}]
+                    case["args"] = rng.choice([{"op": "wrists"}, {"op": "wrist", "hand": rng.choice(["left", "right"])}, {"op": "hide"}])
+                else:
+                    case["pre"] = [{"op": "hide_remove"}]
+                    case["args"] = rng.choice([{"op": "hide"}, {"op": "wrists"}, {"op": "index", "comp": "pose_keypoints_2d", "point": "LWrist"},
+                                               {"op": "get", "sel": ["pose_keypoints_2d"], "points": {"pose_keypoints_2d": ["RWrist", "Nose", "LEye"]}, "mal": "none"}])
                 case["kind"] = "openpose/2step"
             yield case
         for i in range(40 if quick else 1500):
